@@ -57,7 +57,10 @@ def rx_strategy():
         return {"server": draw(st.booleans()), "fbd": draw(st.booleans()), "comp": draw(st.integers(0, 2)) == 0, "mf": mf, "mm": mm, "msgs": msgs,
                 "ping_between": draw(st.booleans()),
                 # the application has already asked for a close (our close frame is out, the peer's reply is not in yet): data still arrives and limits still apply
-                "closing": draw(st.sampled_from([False, False, False, True]))}
+                "closing": draw(st.sampled_from([False, False, False, True])),
+                # earlier on this connection the application tried to send a message above its own limit (refused locally with an error, nothing written):
+                # the receive-side limits must be unaffected by that
+                "refused_send": draw(st.sampled_from([False, False, True]))}
     return case()
 
 
@@ -116,6 +119,8 @@ def check_receive(c):
     rx = Rx(c["server"], c["comp"], c["fbd"], {"maxFramePayloadSize": c["mf"], "maxMessagePayloadSize": c["mm"]})
     mk = b"\x0f\x1e\x2d\x3c" if c["server"] else None
     mf, mm = c["mf"], c["mm"]
+    if c.get("refused_send") and mm:
+        refused_send_first(rx, mm, c)
     if c.get("closing"):
         rx.d.call(rx.side.proto.sendClose, 1000, "bye")
         rx.d.settle()
@@ -204,6 +209,27 @@ def check_receive(c):
     return failed, header_only_seen
 
 
+def refused_send_first(rx, limit, c):
+    """the application calls sendMessage() with limit+1 incompressible octets: PayloadExceededError, nothing written, connection stays open"""
+    from checks.wsdrive import pattern
+    from autobahn.exception import PayloadExceededError
+    before = len(rx.ep.t.written)
+    try:
+        rx.d.call(rx.side.proto.sendMessage, pattern(limit + 1, 99), True)
+        raised = None
+    except PayloadExceededError as e:
+        raised = e
+    except Exception as e:
+        raise Violation("C16|tx|exception|" + exc_key(e), repr(e), c)
+    rx.d.settle()
+    if raised is None:
+        raise Violation("C16|tx|over-limit-send-accepted", "size %d limit %d sent without error" % (limit + 1, limit), c)
+    if len(rx.ep.t.written) != before:
+        raise Violation("C16|tx|refused-send-wrote-bytes", "PayloadExceededError raised but %d chunk(s) written" % (len(rx.ep.t.written) - before), c)
+    if rx.ep.drop_requested or rx.side.count("close"):
+        raise Violation("C16|tx|refused-send-ended-the-connection", repr(rx.side.log[-2:]), c)
+
+
 def check_failed_now(rx, c, when):
     from harness import ref6455
     rx.out += rx.ep.take()
@@ -232,7 +258,7 @@ def receive(col, seed, n):
         failed, ho = check_receive(c)
         near = any(abs(m["total"] - l) <= 1 for m in c["msgs"] if not m.get("huge") for l in (c["mf"], c["mm"]) if l)
         col.case(near or ho, dig=c, cls=["rx/" + ("limit-hit" if failed else "within-limits"), "rx/role:" + ("server" if c["server"] else "client"),
-                                        "rx/fbd=%s" % c["fbd"]] + (["rx/compression"] if c["comp"] else []) + (["rx/compressed-message"] if c["comp"] and any(m.get("z") and (m["total"] == 1 or m["total"] >= 6) for m in c["msgs"]) else []) + (["rx/header-only"] if ho else []) + (["rx/announced>=4GiB"] if any(m.get("huge") for m in c["msgs"]) else []) + (["rx/while-closing"] if c.get("closing") else []),
+                                        "rx/fbd=%s" % c["fbd"]] + (["rx/compression"] if c["comp"] else []) + (["rx/compressed-message"] if c["comp"] and any(m.get("z") and (m["total"] == 1 or m["total"] >= 6) for m in c["msgs"]) else []) + (["rx/header-only"] if ho else []) + (["rx/announced>=4GiB"] if any(m.get("huge") for m in c["msgs"]) else []) + (["rx/while-closing"] if c.get("closing") else []) + (["rx/after-a-refused-send"] if c.get("refused_send") and c["mm"] else []),
                  sample={"mf": c["mf"], "mm": c["mm"], "msgs": [(m["total"], m["cuts"]) for m in c["msgs"]], "role": "server" if c["server"] else "client"})
     run_hypothesis(col, "rx", rx_strategy(), body, n, seed)
 
@@ -313,7 +339,9 @@ def decompress_cap(col, seed, n):
     from hypothesis import strategies as st
     strat = st.fixed_dictionaries({
         "server": st.booleans(), "cap": st.sampled_from([10, 100, 1000, 65536]), "nct": st.booleans(), "fbd": st.booleans(),
-        "msgs": st.lists(st.tuples(st.sampled_from([-1, 0, 1, 50, 5000]), st.booleans(), st.integers(1, 3)), min_size=2, max_size=5)})
+        "msgs": st.lists(st.tuples(st.sampled_from([-1, 0, 1, 50, 5000]), st.booleans(), st.integers(1, 3)), min_size=2, max_size=5),
+        # a send limit is configured as well (far above every generated message) and the application had one over-limit send refused before the traffic
+        "refused_send": st.sampled_from([False, False, True])})
 
     def body(c):
         over = check_cap(c)
@@ -328,6 +356,8 @@ def check_cap(c):
     d = drv.get_driver()
     cap = c["cap"]
     opts = {"failByDrop": c["fbd"], "openHandshakeTimeout": 0, "closeHandshakeTimeout": 0}
+    if c.get("refused_send"):
+        opts["maxMessagePayloadSize"] = 1 << 18
     if c["server"]:
         opts["perMessageCompressionAccept"] = lambda offers: PerMessageDeflateOfferAccept(offers[0], max_message_size=cap)
         side = wsutil.server(d, opts=opts)
@@ -343,6 +373,12 @@ def check_cap(c):
     if side.proto._perMessageCompress is None:
         raise HarnessError("compression not negotiated")
     side.log[:] = []
+    if c.get("refused_send"):
+        class _R:
+            pass
+        rx_ = _R()
+        rx_.d, rx_.side, rx_.ep = d, side, side.ep
+        refused_send_first(rx_, 1 << 18, c)
     mk = b"\x21\x43\x65\x87" if c["server"] else None
     comp = zlib.compressobj(zlib.Z_DEFAULT_COMPRESSION, zlib.DEFLATED, -15)
     expected = []
